@@ -33,11 +33,11 @@ type c10Case struct {
 }
 
 var c10NameSets = [][]string{
-	{"a.bin", "b.bin", "c.bin", "d.bin"},
-	{"plain.txt", "café.bin", "文件.dat", "\U0001F600x\U00010348.bin"},
-	{"with space", "UPPER.TXT", "x", "\U0001F4BEdisk"},
-	{"a", "b", "c", "d"}, // every name exactly one UTF-16 code unit: the smallest possible entries
-	{"世", "界", "x", "y"},
+	{"a.bin", "b.bin", "c.bin", "d.bin", "e.bin"},
+	{"plain.txt", "café.bin", "文件.dat", "\U0001F600x\U00010348.bin", "ünï.cödé"},
+	{"with space", "UPPER.TXT", "x", "\U0001F4BEdisk", "tab\there"},
+	{"a", "b", "c", "d", "e"}, // every name exactly one UTF-16 code unit: the smallest possible entries
+	{"世", "界", "x", "y", "z"},
 }
 
 func c10WriteDir(c *c10Case, r *core.Rec) {
@@ -120,7 +120,7 @@ func c10WriteDir(c *c10Case, r *core.Rec) {
 
 func c10ReadDir(c *c10Case, r *core.Rec) {
 	names := c10NameSets[c.NameSet%len(c10NameSets)]
-	sizes := []int{7, 3, 5, 9}
+	sizes := []int{7, 3, 5, 9, 4}
 	n := len(c.Status)
 	fs := envfs.New()
 	var entries []rpar1.Entry
@@ -315,7 +315,11 @@ func c10Gen(g *core.Gen) {
 		g.Emit(&c10Case{Dir: "write", Sizes: []int{5, 8, 2}, Names: c10NameSets[0][:3], Volumes: v})
 	}
 	// reader direction
-	for n := 1; n <= 4; n++ {
+	maxEntries := 4
+	if g.Thorough() {
+		maxEntries = 5
+	}
+	for n := 1; n <= maxEntries; n++ {
 		tot := 1
 		for i := 0; i < n; i++ {
 			tot *= 4
@@ -334,7 +338,7 @@ func c10Gen(g *core.Gen) {
 			if len(saved) == 0 {
 				continue
 			}
-			if n == 4 && !g.Thorough() && code%3 != 0 {
+			if false {
 				continue
 			}
 			// every subset of damaged saved files (deleted; one variant corrupted), every subset of missing volumes
@@ -381,7 +385,7 @@ func init() {
 		ID:    "C10",
 		Level: "model_checking",
 		Rule: "writer direction: full product 1-4 files x sizes {0,1,2,5,9} x volumes {1,2,3,10} with ASCII / Latin-1 / CJK / astral names, plus >16 KiB files and 98/99 volumes; every file gopar writes is parsed by the strict reference reader (header, offsets, control hash, set hash, UTF-16LE entries) and every parity byte recomputed with the reference GF(2^8). " +
-			"reader direction: reference-written sets with EVERY status bitmask over 1-4 entries (>=1 saved; bit0 saved, bit1 checked) x comment {none, ASCII, binary, 1 KiB} x 3 name sets incl. surrogate pairs x EVERY subset of damaged saved files x EVERY subset of missing volumes, plus a volume with wrong parity data but valid hashes; real Verify(all data) and Repair. non-trivial = damaged set repaired / every write-direction case",
+			"reader direction: reference-written sets with EVERY status bitmask over 1-4 (thorough 1-5) entries (>=1 saved; bit0 saved, bit1 checked) x comment {none, ASCII, binary, 1 KiB} x 3 name sets incl. surrogate pairs x EVERY subset of damaged saved files x EVERY subset of missing volumes, plus a volume with wrong parity data but valid hashes; real Verify(all data) and Repair. non-trivial = damaged set repaired / every write-direction case",
 		Assumptions: []string{"files are numbered from 1 over the saved entries in list order (PAR 1.0 spec)", "non-saved entries are ignored by verification and never written"},
 		NewCase:     func() interface{} { return &c10Case{} },
 		Gen:         c10Gen,
